@@ -301,5 +301,5 @@ def main (args : List String) : IO Unit := do
   let tape : List Nat := match args.find? (·.startsWith "tape=") with
     | some a => ((a.drop 5).toString.splitOn ",").filterMap String.toNat?
     | none => []
-  let t : Toggles := { tape := tape, f1 := args.contains "f1", f2 := !args.contains "nof2", f3 := args.contains "f3", f14 := !args.contains "nof14", f1p := !args.contains "nof1p", f1q := !args.contains "nof1q", f1r := !args.contains "nof1r", f16 := !args.contains "nof16", f33 := !args.contains "nof33", f31 := args.contains "f31", f32 := args.contains "f32", desc := args.contains "desc" }
+  let t : Toggles := { tape := tape, f1 := args.contains "f1", f2 := !args.contains "nof2", f3 := args.contains "f3", f14 := !args.contains "nof14", f1p := !args.contains "nof1p", f1q := !args.contains "nof1q", f1r := !args.contains "nof1r", f13 := !args.contains "nof13", f16 := !args.contains "nof16", f33 := !args.contains "nof33", f31 := args.contains "f31", f32 := args.contains "f32", desc := args.contains "desc" }
   loop (← IO.getStdin) (← IO.getStdout) (args.contains "core" || args.contains "corefull") (args.contains "corefull") (args.contains "cyc") (args.contains "msg") t {}
